@@ -77,6 +77,12 @@ def gen_case(seed, i):
         d = rng.choice(dirs)
         kind = rng.choice(["file-rel", "file-abs", "dir-rel", "dir-abs", "dangling", "cycle"])
         lp = "%s/l%d" % (d, k)
+        if k >= 1 and kind in ("file-rel", "file-abs"):
+            # a link to a FILE that carries a name the directory-only ignore rules (`sub/`, `a/`) mention: such a rule
+            # is about directories, the link (-S) or its target (-L) stays selected (no draw: the stream is unchanged)
+            cand = d + "/" + ("sub", "a")[k % 2]
+            if cand not in files and cand not in dirs:
+                lp = cand
         if kind == "file-rel" and files:
             t = rng.choice(files)
             w.add_symlink(lp, os.path.relpath(t, d))
